@@ -20,6 +20,7 @@ fn with_prop(id: &str, f: &mut dyn FnMut(&dyn Runner)) -> bool {
     match id {
         "C03" => f(&HistProp(Which::C03)),
         "C04" => f(&HistProp(Which::C04)),
+        "C05" => f(&props::c05::C05),
         "C09" => f(&HistProp(Which::C09)),
         "C10" => f(&props::c10::C10),
         "C12" => f(&props::c12::C12),
